@@ -84,6 +84,40 @@ def run(chk):
                              % (kind.upper(), y8.tolist(), badm), dict(ctx, X=hexlist(X8), labels=y8.tolist()))
             except Exception as e:
                 chk.fail("%s.fit_using_array on a Dask array with interleaved client labels raises %r" % (kind.upper(), e), dict(ctx, X=hexlist(X8), labels=y8.tolist()))
+        # a UBM with one variance at the GMM floor (machine epsilon), loaded by ONE channel factor only, and a probe of a few hundred frames: the
+        # posterior precision is graded (1e18 in one direction against 1e2 in the other) and x is still THE solution of
+        # (I + U' S^-1 N U) x = U' S^-1 (F - N m)   - reference in exact rational arithmetic
+        if i % 6 == 4 and rU == 2:
+            import copy as _cp2
+            from fractions import Fraction as _Fr
+            ub_t = _cp2.deepcopy(ubm)
+            ub_t.variance_thresholds = 0.0
+            vt_ = np.array(ub_t.variances, dtype=float)
+            vt_[0, 0] = float(np.finfo(float).eps)
+            ub_t.variances = vt_
+            Ug = np.array(m.U, dtype=float)
+            Ug[0] = [1.0, 0.0]
+            mt2 = fa.make_machine(kind, ub_t, rU, rV, U=Ug, V=np.asarray(m.V) if kind == "jfa" else None, Dv=np.asarray(m.D))
+            g6 = gen.nprng(r)
+            nn6 = np.round(g6.uniform(50.0, 150.0, size=C), 2)
+            xbar6 = np.round(np.asarray(ub_t.means, dtype=float) + g6.normal(size=(C, D)) * 0.3, 6)
+            xbar6[0, 0] = float(np.asarray(ub_t.means)[0, 0]) + 1e-9
+            Fm = nn6[:, None] * xbar6
+            pr6 = fa.mkstats(C, D, int(nn6.sum()), nn6, Fm, nn6[:, None] * (xbar6 ** 2 + 1.0))
+            x6 = np.asarray(mt2.estimate_x([pr6]), dtype=float)
+            Sg = [_Fr(float(v)) for v in np.asarray(ub_t.variances, dtype=float).reshape(-1)]
+            Nn = [_Fr(float(v)) for v in np.repeat(nn6, D)]
+            Mm = [_Fr(float(v)) for v in np.asarray(ub_t.means, dtype=float).reshape(-1)]
+            Ff = [_Fr(float(v)) for v in np.asarray(pr6.sum_px, dtype=float).reshape(-1)]
+            Uf = [[_Fr(float(v)) for v in row] for row in Ug]
+            P = [[_Fr(int(a == b)) + sum(Uf[q][a] * Uf[q][b] * Nn[q] / Sg[q] for q in range(C * D)) for b in range(2)] for a in range(2)]
+            bb = [sum(Uf[q][a] * (Ff[q] - Nn[q] * Mm[q]) / Sg[q] for q in range(C * D)) for a in range(2)]
+            det = P[0][0] * P[1][1] - P[0][1] * P[1][0]
+            x_ref = np.array([float((P[1][1] * bb[0] - P[0][1] * bb[1]) / det), float((P[0][0] * bb[1] - P[1][0] * bb[0]) / det)])
+            chk.count(1, key=("estimate_x, a variance at machine epsilon", kind))
+            if not np.allclose(x6, x_ref, rtol=1e-5, atol=1e-8 * (1 + np.abs(x_ref).max())):
+                chk.fail("%s: with one UBM variance at machine epsilon (graded posterior precision) estimate_x gives %s, the exact solution of its normal equation is %s" % (kind, x6.tolist(), x_ref.tolist()),
+                         dict(ctx, tiny_variance_entry=[0, 0], counts=hexlist(nn6), U_used=hexlist(Ug)))
         # score, train the SAME machine object further, score again: the second score is that of a fresh machine holding the trained U, V, D
         if i % 5 == 2:
             import copy as _copy
